@@ -20,6 +20,7 @@ from .extract import typed_ir
 
 VERIF = os.path.dirname(os.path.dirname(os.path.abspath(__file__)))
 REPO = os.environ.get("SKV_REPO", "/repo")
+OUT = os.environ.get("SKV_OUT", VERIF)  # where evidence/ and replay/ are written (development: seed matrix)
 
 TRUSTED_BASE = [
     "Numba after type inference (typed rewrites, parfor conversion, lowering), llvmlite/LLVM, the CPU",
@@ -236,8 +237,8 @@ class Check:
                     if r["name"] == obligation:
                         r["result"] = "known-finding"
                 return
-        os.makedirs(os.path.join(VERIF, "replay"), exist_ok=True)
-        path = os.path.join(VERIF, "replay", "%s-%s.json" % (self.pid, _san(obligation)))
+        os.makedirs(os.path.join(OUT, "replay"), exist_ok=True)
+        path = os.path.join(OUT, "replay", "%s-%s.json" % (self.pid, _san(obligation)))
         doc = {"property": self.pid, "obligation": obligation, "failing_input_found": found is not None}
         doc.update(info)
         if found is not None:
@@ -297,8 +298,8 @@ class Check:
             "wall_s": round(wall, 2),
             "violations": len(self.violations),
         }
-        os.makedirs(os.path.join(VERIF, "evidence"), exist_ok=True)
-        with open(os.path.join(VERIF, "evidence", self.pid + ".json"), "w") as f:
+        os.makedirs(os.path.join(OUT, "evidence"), exist_ok=True)
+        with open(os.path.join(OUT, "evidence", self.pid + ".json"), "w") as f:
             json.dump(ev, f, indent=1, default=str)
         print(
             "%s: %d/%d obligations discharged, %d bounded stand-ins, %d violations, %d undecided, %.1fs"
